@@ -626,7 +626,8 @@ class LangServer:
         no_use = False
         type_mask = set_type_mask(False)
         type_mask[MODULE_TYPE_ID] = True
-        type_mask[CLASS_TYPE_ID] = True
+        # A derived type is named in a statement by its structure constructor
+        type_mask[CLASS_TYPE_ID] = line_context not in ("default", "first")
         if line_context == "mod_only":
             # Module names only (USE statement)
             for key in self.obj_tree:
